@@ -242,14 +242,21 @@ def minimise(ctx, drv, sc):
 
 
 B, P, L = DEVS
-HYPS = [[], [B], [P], [L], [B, P], [B, L], [P, L], [B, P, L]]
+# deviation sets tried when a rejected run is attributed.  BankedMemTrace over-approximates LaneOvertake (any item
+# may overtake any older one of its bank), which subsumes the row-order deviations: no sets mixing L with B or P.
+HYPS = [[], [B], [P], [L], [B, P]]
 
 
 def hyps_for(cfg):
     """Deviation sets worth trying for a configuration: row-order deviations need row tracking, LaneOvertake needs a
     pipeline wider than one lane (their guards are false otherwise)."""
-    use = [d for d in DEVS if (d == L and cfg.get('width', 1) > 1) or (d != L and cfg.get('track'))]
+    use = applicable(cfg)
     return [h for h in HYPS if all(d in use for d in h)]
+
+
+def applicable(cfg):
+    """The deviations of the pinned code that can act in a configuration."""
+    return [d for d in DEVS if (d == L and cfg.get('width', 1) > 1) or (d != L and cfg.get('track'))]
 
 
 def banked_explains(ctx, runs, hyps_of, tag, workers=6, timeout=1500):
@@ -260,6 +267,14 @@ def banked_explains(ctx, runs, hyps_of, tag, workers=6, timeout=1500):
         r = copy.deepcopy(r)
         hyps.append(hyps_of(r[0]))
         r[0]['devs'] = hyps[-1]
+        # join of the log with itself: each request learns the rank of its response (prunes the search, see the spec)
+        rank = {}
+        for x in r:
+            if x['e'] == 'Rsp':
+                rank.setdefault(x['id'], len(rank) + 1)
+        for x in r:
+            if x['e'] == 'EnvReq':
+                x['rl'] = rank.get(x['id'], len(r) + 1)
         starts.append(len(recs) + 1)
         recs += r
     p = os.path.join(ctx.scratch, 'banked_%s.ndjson' % tag)
@@ -285,7 +300,7 @@ def name_deviation(accepted, cfg):
     if [] in accepted:
         return 'model_accepts_without_deviation'
     order = [[L], [B], [P]] if cfg.get('width', 1) > 1 else [[B], [P], [L]]
-    for h in order + HYPS[4:]:
+    for h in order + [[B, P]]:
         if h in accepted:
             return '+'.join(h)
     return 'none'
@@ -324,7 +339,9 @@ def handle_failures(ctx, drv, scen, tfile, bad, cap):
     results = [(sc, recs, lw[0], lw[1], name_deviation(acc[j], recs[0])) for j, (sc, recs, lw) in enumerate(chosen)]
     for sc, recs, line, why, dev in results:
         if dev == 'model_accepts_without_deviation':
-            raise vlib.Infra('BankedMem without deviations accepts a run FlatMem rejects: the design model is unsound')
+            # FlatMem (the property) decides; an attribution that fails must not hide the rejection
+            ctx.notes.append('BankedMem without deviations accepts a run FlatMem rejects (%s): attribution unavailable' % why)
+            dev = 'unattributed'
         ev = recs[line - 1]
         sig = {'kind': 'trace_rejected', 'violated': why, 'event': ev.get('e'), 'deviation': dev}
         reqs = ['%s@%d a=%d n=%d' % (q['k'], q['at'], q['a'], q['n']) for q in sc['reqs']]
@@ -491,6 +508,10 @@ def run(ctx, selftest=False):
                                                               len(stats['suspect'])))
     bad = flat_all(ctx, tfile)
     ctx.log('FlatMemTrace: %d of %d runs rejected' % (len(bad), len(scen)))
+    ctx.cov['counterexamples_reproduced_on_real_code'] = sorted(
+        scen[i]['name'] for i in bad if scen[i].get('name', '').startswith(('tlc_counterexample', 'witness')))
+    ctx.cov['tlc_behaviours_rejected_on_real_code'] = sum(
+        1 for i in bad if scen[i].get('name', '').startswith('tlc_behaviour'))
     diag = {int(k) for k in stats['suspect']}
     if diag != set(bad):
         ctx.notes.append('diagnostic oracle and TLC disagree on runs %s' % sorted(diag ^ set(bad))[:10])
@@ -512,7 +533,7 @@ def run(ctx, selftest=False):
     sel = [i for i in good if i < nreplay and len(scen[i]['reqs']) <= 6]
     if not thorough:
         sel = sel[:40]
-    acc = banked_explains(ctx, [parts[i][1] for i in sel], lambda r: [DEVS], 'bind')
+    acc = banked_explains(ctx, [parts[i][1] for i in sel], lambda r: [applicable(r)], 'bind')
     unexplained = [sel[j] for j in range(len(sel)) if not acc[j]]
     if unexplained:
         msg = 'BankedMem (as implemented) does not explain property-conforming runs %s, e.g. %s' % (
